@@ -172,6 +172,101 @@ def Coord.request {β : Type} (c : Coord β) (isB : Bool) (next : β × β) : Co
   if isB then (⟨c1.qA, c1.qB.tail, c1.draws⟩, c1.qB.head?, needDraw)
   else (⟨c1.qA.tail, c1.qB, c1.draws⟩, c1.qA.head?, needDraw)
 
+/-! ### dual-mode samples (`superposed.cpp`, `composite.cpp`, `disjoint.cpp`, `coherent.cpp`) -/
+
+/-- what a (possibly decorated) mode reports -/
+structure ModeTheory (α : Type) where
+  mean : Stokes α
+  cov : Mat 4 4 α
+  xcov : Nat → Mat 4 4 α
+
+def sampleCovM (m : ModeTheory α) (n : Nat) : Mat 4 4 α :=
+  fun i j => sampleCovEntry (m.cov i j) (fun l => m.xcov l i j) n (nSqScalar n)
+def sampleXCovM (m : ModeTheory α) (lag n : Nat) : Mat 4 4 α :=
+  fun i j => sampleXCovEntry (fun l => m.xcov l i j) lag n (nSqScalar n)
+def vouter (a b : Stokes α) : Mat 4 4 α := fun i j => a i * b j
+
+/-- `combination::get_crosscovariance` for `ilag > 0` (lag 0 is the covariance) -/
+def combinationXCov (a b : ModeTheory α) (lag n : Nat) : Mat 4 4 α :=
+  fun i j => sampleXCovM a lag n i j + sampleXCovM b lag n i j
+
+def superposedMean (a b : ModeTheory α) : Stokes α := fun i => a.mean i + b.mean i
+/-- `superposed::get_covariance` (Eq. 42): `κ` is the covariance of the two unit-mean modulation factors -/
+def superposedCov (a b : ModeTheory α) (kappa : α) (n : Nat) : Mat 4 4 α :=
+  let f1 := (one + kappa) / Arith.ofNat n
+  let f2 := kappa / Arith.ofNat n
+  let x : Mat 4 4 α := fun i j => Minkowski.outer a.mean b.mean i j * f1 + vouter a.mean b.mean i j * f2
+  fun i j => (sampleCovM a n i j + sampleCovM b n i j) + (x i j + x j i)
+
+/-- the two instance counts of a composite sample: `nA = unsigned (A_fraction * sample_size)` is a leaf -/
+def compositeCountB (repaired : Bool) (nA n : Nat) (buggy : Nat) : Nat := if repaired then n - nA else buggy
+def currentCompositeCountsRepaired : Bool := true
+def currentCompositeZeroGuard : Bool := true
+def compositeMean (a b : ModeTheory α) (nA n : Nat) : Stokes α :=
+  fun i => (a.mean i * Arith.ofNat nA + b.mean i * Arith.ofNat (n - nA)) / Arith.ofNat n
+/-- `composite::get_covariance` (Eq. 59); `minF` is `std::min (f_A, f_B)` -/
+def compositeCov (guard : Bool) (a b : ModeTheory α) (kappa : α) (nA n : Nat) : Mat 4 4 α :=
+  let nB := n - nA
+  let fA : α := Arith.ofNat nA / Arith.ofNat n
+  let fB : α := Arith.ofNat nB / Arith.ofNat n
+  let minF : α := Arith.ofNat (min nA nB) / Arith.ofNat n
+  let cA : Mat 4 4 α := if guard && nA == 0 then (fun _ _ => zero) else sampleCovM a nA
+  let cB : Mat 4 4 α := if guard && nB == 0 then (fun _ _ => zero) else sampleCovM b nB
+  let e : Mat 4 4 α := fun i j => vouter a.mean b.mean i j * (minF * kappa / Arith.ofNat n)
+  fun i j => ((cA i j * (fA * fA) + cB i j * (fB * fB)) + e i j) + e j i
+
+def disjointMean (a b : ModeTheory α) (f : α) : Stokes α := fun i => f * a.mean i + (one - f) * b.mean i
+/-- `disjoint::get_covariance` (Eq. 39) -/
+def disjointCov (a b : ModeTheory α) (f : α) (n : Nat) : Mat 4 4 α :=
+  let diff : Stokes α := fun i => a.mean i - b.mean i
+  fun i j => (sampleCovM a n i j * f + sampleCovM b n i j * (one - f)) + vouter diff diff i j * (f * (one - f))
+/-- `disjoint::get_crosscovariance` for `ilag > 0` -/
+def disjointXCov (a b : ModeTheory α) (f : α) (lag : Nat) : Mat 4 4 α :=
+  fun i j => a.xcov lag i j * (f * f) + b.xcov lag i j * ((one - f) * (one - f))
+
+def coherentCov (a b : ModeTheory α) (n : Nat) : Mat 4 4 α :=
+  let x : Mat 4 4 α := fun i j => Minkowski.outer a.mean b.mean i j / Arith.ofNat n
+  fun i j => (sampleCovM a n i j + sampleCovM b n i j) + (x i j + x j i)
+
+/-! generators on an explicit deviate stream (plain modes); `fieldOf P g` is one `get_field` -/
+def stokesZero : Stokes α := fun _ => zero
+def stokesAdd (a b : Stokes α) : Stokes α := fun i => a i + b i
+def stokesDivN (a : Stokes α) (n : Nat) : Stokes α := fun i => a i / Arith.ofNat n
+def take4 (l : List α) : Vec 4 α × List α :=
+  let a := l.toArray
+  ((fun i => a.getD i.val zero), l.drop 4)
+
+/-- `superposed::get_Stokes`: per instance one field of A then one of B, detected together -/
+def superposedGen (field : Jones α → Vec 4 α → Spinor α) (pA pB : Jones α) (n : Nat) (devs : List α) : Stokes α × Nat :=
+  let step := fun (acc : Stokes α × List α × Nat) (_ : Nat) =>
+    let (gA, r1) := take4 acc.2.1
+    let (gB, r2) := take4 r1
+    let e := Spinor.add (field pA gA) (field pB gB)
+    (stokesAdd acc.1 (Spinor.computeStokes e), r2, acc.2.2 + 8)
+  let r := (List.range n).foldl step (stokesZero, devs, 0)
+  (stokesDivN r.1 n, r.2.2)
+
+/-- `composite::get_Stokes`: both modes draw in every iteration up to the larger count; an instance is
+added only below the mode's own count -/
+def compositeGen (field : Jones α → Vec 4 α → Spinor α) (pA pB : Jones α) (nA nB n : Nat) (devs : List α) : Stokes α × Nat :=
+  let step := fun (acc : Stokes α × List α × Nat) (i : Nat) =>
+    let (gA, r1) := take4 acc.2.1
+    let s1 := if i < nA then stokesAdd acc.1 (Spinor.computeStokes (field pA gA)) else acc.1
+    let (gB, r2) := take4 r1
+    let s2 := if i < nB then stokesAdd s1 (Spinor.computeStokes (field pB gB)) else s1
+    (s2, r2, acc.2.2 + 8)
+  let r := (List.range (max nA nB)).foldl step (stokesZero, devs, 0)
+  (stokesDivN r.1 n, r.2.2)
+
+/-- `disjoint::get_Stokes`: one uniform deviate selects the mode for the whole sample -/
+def disjointGen (field : Jones α → Vec 4 α → Spinor α) (pA pB : Jones α) (selectA : Bool) (n : Nat) (devs : List α) : Stokes α × Nat :=
+  let p := if selectA then pA else pB
+  let step := fun (acc : Stokes α × List α × Nat) (_ : Nat) =>
+    let (g, r1) := take4 acc.2.1
+    (stokesAdd acc.1 (Spinor.computeStokes (field p g)), r1, acc.2.2 + 4)
+  let r := (List.range n).foldl step (stokesZero, devs, 0)
+  (stokesDivN r.1 n, r.2.2)
+
 def currentSqrt22Clamped : Bool := true
 
 /-- which repairs the current source contains -/
